@@ -43,12 +43,27 @@ user keys are compared), evaluated on the kwargs the executed actions really rec
    every task returned as task_dep by a calc_dep with visible values has its final report before the
             dependent's actions start                                   shape calc-task-dep-not-before
    changed >= {file deps that are new or whose content/mtime differs from the last success's view}
-            shape changed-empty-when-uptodate-false when an uptodate item (False, run_once, or a result_dep) can be false
-            (the known finding); changed-misses-readded-dep when exactly the missed files are dependencies again after
-            successful execution(s) without them and unchanged since the task last had them (stale per-file state kept by
-            save_success: known finding); else changed-misses-modified.
+            shape changed-empty-when-uptodate-false when `changed` is empty and get_status left at its uptodate-false exit
+            (the known finding; whether it did is the implementation's own statement: the wrapper asks get_status a second
+            time with get_log=True and looks for the reason 'uptodate_false'; only if that second call fails: when an
+            uptodate item -- False, run_once, or a result_dep -- CAN be false); changed-misses-readded-dep when exactly the missed files are dependencies again after
+            successful execution(s) without them and unchanged since the task last had them (the per-file state saved by an
+            EARLIER execution is still in the DB: save_success never drops it; get_status must list such a dependency because
+            it is not in the saved 'deps:' list -- the repaired defect fixC of Model/Status.v, an ordinary violation shape,
+            exercised in every run by the scripted family 'readded' below); else changed-misses-modified.
    a task with calc_dep gets its verdict (executed / up-to-date) only after each calc_dep task has its final report
             (executed or up-to-date) in this run                              shape calc-dep-not-run-before
+
+Family 'readded' (gen_readded_session; scripted, the same histories for EVERY seed; model side AND oracle as for the
+families above): a file dependency leaves file_dep and comes back, untouched: file_dep [f0, f1] / [f0] / [f0, f1] of a
+static task, and a calc_dep provider returning [f1] / [f3] / [f1] for a consumer with file_dep [f0]; json, dbm and sqlite3,
+md5 and timestamp checker, serial / -n 2 / -n 2 -P thread, python- and cmd-actions; continued by: nothing changed
+(up-to-date), the file modified while it was not a dependency, the other file leaving and coming back.  In the run in
+which the file is back the task executes (the dep SET changed) and `changed` must list it: it was not a dependency of the
+last successful execution (C10_changed_superset, last clause; C10_changed_readded; the code before the repair answers []:
+C10_changed_readded_legacy_refuted).  Plus for this family: every scripted run must reach its case (the consumer executed
+/ up-to-date as scripted)                                                     shape readded-script-not-reached
+   `changed` holds nothing beyond the scripted set                            shape changed-includes-unmodified
 
 Family 'delayed' (gen_delayed_session; IMPLEMENTATION-SIDE ORACLE ONLY: delayed creation is modelled in Model/Delayed.v
 for C15, not in Model/Inputs.v -- no model side, no theorem of Properties/C10.v speaks about it): the consumers are
@@ -348,6 +363,127 @@ def gen_session(rng, idx, mode='random'):
         cmds.append(('Run', rng.random() < (0.08 if rv else 0.15), fails, sel, flavour))
     return dict(idx=idx, mode=mode, tasks=tasks, cmds=cmds,
                 backend=rng.choice(['json', 'dbm', 'sqlite'] if rv else ['json'] * 6 + ['dbm', 'sqlite']))
+
+
+# ------------------------------------------------------------------ generation: a dependency that leaves and comes back
+READDED_VARIANTS = [(b, kind, ck) for b in BACKENDS for kind in ('static', 'calc') for ck in ('md5', 'ts')]
+
+
+def gen_readded_session(idx, k):
+    """family 'readded' (scripted; no random choice: the same histories for every seed).  k % 12 selects backend x
+    static/calc x checker; runner flavour and action kind rotate with k.
+    sess['script'] = per run (consumer id, 'run' | 'up-to-date', expected `changed` as a sorted list or None, is-the-readded-case)"""
+    backend, kind, ck = READDED_VARIANTS[k % len(READDED_VARIANTS)]
+    b, kd, c = BACKENDS.index(backend), int(kind == 'calc'), int(ck == 'ts')
+    flavour = ('serial', 'proc', 'thread')[(b + kd + c + k // len(READDED_VARIANTS)) % 3]
+    action = 'cmd' if (k + k // len(READDED_VARIANTS)) % 3 == 1 else 'py'
+    tasks, cmds, script = [], [('SetChecker', ck)], []
+
+    def new(**kw):
+        t = dict(kind='plain', file_dep=[], targets=[], uptodate=[], values=[], result=None, getargs=[], setup=[],
+                 task_dep=[], calc_dep=[], group=False, sub_of=None, action='py', params=[], extra_dep=[], noval='none')
+        t.update(kw)
+        tasks.append(t)
+        return len(tasks) - 1
+    for f in range(4):
+        cmds.append(('Write', f, f))
+    content = {f: f for f in range(4)}
+    if kind == 'static':
+        cons = new(kind='consumer', file_dep=[0, 1], params=[1, 2], action=action)
+        live = dict(tasks[cons])
+        cmds.append(('SetDef', cons))
+
+        def run(deps, verdict, changed, case=False):
+            if deps is not None and deps != live['file_dep']:
+                live['file_dep'] = list(deps)
+                cmds.append(('SetDef', cons, dict(live)))
+            cmds.append(('Run', False, [], [cons], flavour))
+            script.append((cons, verdict, None if changed is None else sorted(changed), case))
+
+        def edit(f):
+            content[f] = (content[f] + 1) % 4
+            cmds.append(('Write', f, content[f]))
+        run(None, 'run', {0, 1})                 # first execution
+        run([0], 'run', set())                   # f1 leaves: the dep set changed, nothing is modified
+        run([0, 1], 'run', {1}, True)            # f1 is back, untouched since run 0: not a dependency of the last execution
+        run(None, 'up-to-date', None)
+        run([0], 'run', set())
+        edit(1)                                  # modified while it was not a dependency
+        run([0, 1], 'run', {1})
+        run([1], 'run', set())                   # now f0 leaves ...
+        run([0, 1], 'run', {0}, True)            # ... and comes back
+        edit(0)
+        run(None, 'run', {0})                    # an ordinary modification
+    else:
+        # the provider has a file dependency in half of the variants (then it is re-executed because that file is edited,
+        # and is up-to-date -- its saved values are used -- in the run in which nothing changes), none in the others (it
+        # re-executes in every run)
+        pdeps = [2] if c else []
+        prov = new(kind='calc', file_dep=pdeps, values=[(2, mask([1]))])
+        cons = new(kind='consumer', file_dep=[0], calc_dep=[prov], params=[1, 2], action=action)
+        plive = dict(tasks[prov])
+        cmds += [('SetDef', prov), ('SetDef', cons)]
+
+        def run(ret, verdict, changed, case=False):
+            if ret is not None:
+                plive['values'] = [(2, mask(ret))]
+                cmds.append(('SetDef', prov, dict(plive)))
+                if pdeps:
+                    content[2] = (content[2] + 1) % 4
+                    cmds.append(('Write', 2, content[2]))
+            cmds.append(('SetDef', cons, dict(tasks[cons])))     # the static definition is back at every start of doit
+            cmds.append(('Run', False, [], [cons], flavour))
+            script.append((cons, verdict, None if changed is None else sorted(changed), case))
+
+        def edit(f):
+            content[f] = (content[f] + 1) % 4
+            cmds.append(('Write', f, content[f]))
+        run(None, 'run', {0, 1})                 # the provider returns [f1]: dependencies [f0, f1]
+        run([3], 'run', {3})                     # ... [f3]: f1 leaves, f3 is new
+        run([1], 'run', {1}, True)               # ... [f1] again: f1 is back, untouched; f3 leaves
+        run(None, 'up-to-date', None)
+        run([3], 'run', {3}, True)               # f3 is back, untouched since the second run
+        edit(1)                                  # f1 is modified while it is not a dependency
+        run([1], 'run', {1})
+        run([1, 3], 'run', {3}, True)            # f3 joins again (f1 stays)
+    return dict(idx=idx, mode='readded', tasks=tasks, cmds=cmds, backend=backend, script=script,
+                variant='%s:%s:%s:%s:%s' % (kind, backend, ck, flavour, action))
+
+
+def judge_readded(sess, w, runs, out):
+    """family 'readded': every scripted run reached its case, and `changed` holds nothing beyond the scripted set
+    (a scripted file that is MISSING from `changed` is reported by Shadow.judge: changed-misses-readded-dep / -modified)"""
+    for ri, (cons, verdict, want, is_case) in enumerate(sess['script']):
+        want = None if want is None else set(want)
+        case = dict(session=sess['idx'], mode='readded', variant=sess['variant'], run=ri, task=cons, tasks=sess['tasks'],
+                    cmds=sess['cmds'], backend=sess['backend'], script=sess['script'])
+        if ri >= len(runs):
+            out.violations.append(dict(what='scripted run %d of the readded family was not executed' % ri, shape='readded-script-not-reached', case=case))
+            continue
+        obs = runs[ri]
+        nm = w.names[cons]
+        kinds = [e for e, tn, _ in obs['events'] if tn == nm]
+        lg = [l for l in obs['logged'] if l['task'] == nm and 'kw' in l]
+        if verdict == 'up-to-date':
+            if 'uptodate' not in kinds or lg:
+                out.violations.append(dict(what='run %d of the scripted history: %s should be up-to-date (nothing changed since its last successful execution), events: %s' % (ri, nm, kinds),
+                                           shape='readded-script-not-reached', case=case))
+            else:
+                out.count('readded:up-to-date-when-nothing-changed')
+            continue
+        if 'success' not in kinds or len(lg) != 1 or 'changed' not in lg[0]['kw'] or 'dependencies' not in lg[0]['kw']:
+            out.violations.append(dict(what='run %d of the scripted history: %s should have been executed and have received `dependencies` and `changed`; events: %s, exit %s' % (ri, nm, kinds, obs['rc']),
+                                       shape='readded-script-not-reached', case=case))
+            continue
+        ch = {w.fileno(p) for p in lg[0]['kw']['changed']}
+        if not ch <= want:
+            out.violations.append(dict(what='run %d of the scripted history: `changed` %s of %s holds %s, neither new nor modified since its last successful execution (scripted: %s)'
+                                            % (ri, sorted(ch), nm, sorted(ch - want), sorted(want)), shape='changed-includes-unmodified', case=case))
+        elif ch == want:
+            out.count('readded:changed==scripted-set' + (':the-readded-dependency' if is_case else ':nonempty' if want else ':empty'))
+            if is_case:
+                out.nontrivial.add((sess['idx'], ri))
+                out.count('readded:case:%s' % sess['variant'].rsplit(':', 2)[0])
 
 
 # ------------------------------------------------------------------ generation: consumers created at run time
@@ -678,6 +814,7 @@ class Rec:
     """class-level recording (the reporter class is instantiated by doit)"""
     events = []
     tasks = None
+    utd_false = {}
     verdicts = []
 
 
@@ -843,12 +980,22 @@ class World:
         from doit.doit_cmd import DoitMain
         from doit.cmd_base import ModuleTaskLoader
         import doit.dependency as D
-        Rec.events, Rec.tasks, Rec.verdicts = [], None, []
+        Rec.events, Rec.tasks, Rec.verdicts, Rec.utd_false = [], None, [], {}
         orig = D.Dependency.get_status
 
         def wrapped(dep, task, tasks_dict, get_log=False):
             res = orig(dep, task, tasks_dict, get_log)
             Rec.verdicts.append((task.name, res.status, list(task.dep_changed or [])))
+            # for the oracle only (which known finding explains an empty `changed`): did get_status leave at its
+            # uptodate-false exit?  The implementation's own answer: the reasons of a second call with get_log=True
+            # (the items of this harness -- booleans, run_once, result_dep -- are pure; dep_changed is put back)
+            if not get_log:
+                keep = task.dep_changed
+                try:
+                    Rec.utd_false[task.name] = bool(orig(dep, task, tasks_dict, True).reasons.get('uptodate_false'))
+                except Exception:  # noqa
+                    Rec.utd_false[task.name] = None
+                task.dep_changed = keep
             return res
         D.Dependency.get_status = wrapped
         buf = io.StringIO()
@@ -1004,7 +1151,7 @@ def run_session(ctx, sess, out):
                         logged.append(dict(task=parts[1], cmd=parts[2:], kw=w.cmd_kw(w.ids[parts[1]], parts[2:])))
                     elif line:
                         logged.append(json.loads(line))
-            obs = dict(run_no=len(runs), rc=rc, events=list(Rec.events), verdicts=list(Rec.verdicts), logged=logged, tasks=Rec.tasks,
+            obs = dict(run_no=len(runs), rc=rc, events=list(Rec.events), verdicts=list(Rec.verdicts), utd_false=dict(Rec.utd_false), logged=logged, tasks=Rec.tasks,
                        fsview=dict(w.fsview), live={i: dict(t) for i, t in w.live.items()}, ck=w.ck, cmd=c, txt=txt[-400:])
             runs.append(obs)
             for i in range(n):
@@ -1275,11 +1422,17 @@ class Shadow:
                                    and stale[f][2] == obs['fsview'][f][2] and (obs['ck'] != 'ts' or stale[f][0] == obs['fsview'][f][0])}
                         utd_can_be_false = (any(u == ('bool', False) or u[0] == 'run_once' for u in t['uptodate']) or any(s not in t['setup'] for _, s, _ in t['getargs'])
                                             or calc_utd_false(t))
-                        if readded and readded == must - ch:
+                        # True / False: get_status did / did not leave at its uptodate-false exit (the reasons it gives with
+                        # get_log=True); None: unknown
+                        early = obs.get('utd_false', {}).get(l['task'])
+                        if not ch and early:
+                            out.violations.append(dict(what='`changed` is empty although file dependencies %s are new/modified since the last successful execution: get_status returned at its uptodate-false exit before computing dep_changed' % sorted(must),
+                                                       shape='changed-empty-when-uptodate-false', case=case))
+                        elif readded and readded == must - ch:
                             out.violations.append(dict(what='`changed` %s misses %s: file dependencies that the last successful execution of %s did NOT have (they were dropped from its file_dep, and are '
                                                             'back now); their state saved by an EARLIER execution is still in the DB, so they count as unmodified' % (sorted(ch), sorted(readded), l['task']),
                                                        shape='changed-misses-readded-dep', case=case))
-                        elif not ch and utd_can_be_false:
+                        elif not ch and utd_can_be_false and early is None:
                             out.violations.append(dict(what='`changed` is empty although file dependencies %s are new/modified since the last successful execution: get_status returned at its uptodate-false exit before computing dep_changed' % sorted(must),
                                                        shape='changed-empty-when-uptodate-false', case=case))
                         else:
@@ -1395,11 +1548,17 @@ def run(ctx):
                  'known finding), `targets` its targets, getargs values the most recent successfully saved ones of the provider; the calc '
                  'provider has its final report before the consumer is checked; a consumer found up-to-date has no new/modified '
                  'declared or calculated file dependency (with none on record all are new), no False uptodate item, no missing target')
-    nsess, nrev, ndel = ctx.n(120, 600), ctx.n(110, 500), ctx.n(144, 720)
+    out.rule += ('; family readded (scripted, every seed): a (session, run) counts when the task executed in the run in which a file '
+                 'dependency is back after successful execution(s) without it, untouched, and received `changed` == exactly that file')
+    nsess, nrev, ndel, nread = ctx.n(120, 600), ctx.n(110, 500), ctx.n(144, 720), ctx.n(12, 36)
     cases, metas = [], []
-    for idx in range(nsess + nrev + ndel):
-        is_delayed = idx >= nsess + nrev
-        if is_delayed:
+    for idx in range(nsess + nrev + ndel + nread):
+        is_delayed = nsess + nrev <= idx < nsess + nrev + ndel
+        is_readded = idx >= nsess + nrev + ndel
+        if is_readded:
+            sess = gen_readded_session(idx, idx - nsess - nrev - ndel)
+            out.count('readded:variant:' + sess['variant'])
+        elif is_delayed:
             sess = gen_delayed_session(ctx.rng, idx, idx - nsess - nrev)
             out.count('delayed:shape:' + sess['shape'])
         else:
@@ -1424,6 +1583,8 @@ def run(ctx):
                 cases += static_cases(sess, w, runs)
             try:
                 judge_session(sess, w, runs, out)
+                if is_readded:
+                    judge_readded(sess, w, runs, out)
             except Exception:  # noqa
                 import traceback
                 ctx.notes.append('oracle, session %d: %s' % (idx, traceback.format_exc()[-600:]))
@@ -1574,6 +1735,9 @@ def replay(ctx, payload):
             print('   ' + line)
     ints, runs, w = run_session(ctx, sess, out)
     judge_session(sess, w, runs, out)
+    if case.get('script'):
+        sess.update(script=[tuple(x) for x in case['script']], variant=case.get('variant', 'replay'))
+        judge_readded(sess, w, runs, out)
     shapes = sorted({v['shape'] for v in out.violations})
     if sess['mode'] == 'delayed':
         for obs in runs:
